@@ -342,7 +342,7 @@ ADEQUACY = [
     ('CombineImports', 'adjacent imports merged in source order execute the same imports in the same order (C05)'),
     ('RemoveAnnotations', 'dropping an annotation changes only __annotations__ PROVIDED its expression has no effect (side condition NOT established by the code: KF-15)'),
     ('RemovePass', 'pass has no effect; an emptied suite gets the expression statement 0 (C05)'),
-    ('RemoveObject', 'class C(object) == class C PROVIDED object is the builtin (side condition NOT established by the code: KF-14)'),
+    ('RemoveObject', 'class C(object) == class C PROVIDED object is the builtin (side condition established conservatively: nothing in the module binds the name and there is no star import; C05/RemoveObject.*, C05/rebinds_object/*)'),
     ('RemoveAsserts', 'only on request (not a safe option)'),
     ('RemoveDebug', 'only on request (not a safe option)'),
     ('RemoveExplicitReturnNone', 'return None == return; a trailing bare return == falling off the end (C05)'),
